@@ -7,15 +7,18 @@
    This file contains only the property theorems (each closed by [exact]) and [Print Assumptions];
    statements are pinned in Pins/C01.v.
 
-   PARTIAL AT THIS COMMIT: the composition is proved from C04's closed theorems and from ONE
-   statement about the sender, [c05_contract] (Proofs/TcpNetContract.v: every emitted segment carries
-   the application's stream at the offset its sequence number denotes, FIN only at the end after
-   close, SND.UNA moves only by an exact acknowledgement, a keep-alive octet lies below SND.UNA).
-   Until C05 discharges it, it appears as an explicit premise and the theorems carry the suffix
-   _partial; nothing else is assumed (no Section variable survives into this file). *)
+   PARTIAL AT THIS COMMIT: the composition is proved from C04's and C05's closed theorems
+   (Proofs/TcpNetTx.v assembles C05's ingress_inv / dispatch_inv_full / dispatch_segments /
+   send_inv / close_inv / ... into the one statement the composition consumes) except for ONE fact
+   about the sender that C05 has not proved: [c05_ka_bound] - the garbage octet of a keep-alive
+   probe (RFC 1122 4.2.3.6, sent at SND.NXT-1) carries a sequence number that is already
+   acknowledged.  It appears as an explicit premise and the theorems carry the suffix _partial;
+   nothing else is assumed (no Section variable survives into this file).  The premise is needed
+   for a real reason: a zero octet at an unacknowledged sequence number lies inside the receiver's
+   window and would be handed to the application. *)
 From SV Require Import Lib.Base Gen.Consts.
 From SV Require Import Model.Seq32 Model.Assembler Model.TcpBuf Model.TcpTypes Model.Tcp Model.TcpNet.
-From SV Require Import Proofs.TcpNetBase Proofs.TcpNetContract Proofs.TcpNetCompose Proofs.TcpNetInv Proofs.TcpNetProofs.
+From SV Require Import Proofs.TcpNetBase Proofs.TcpNetContract Proofs.TcpNetTx Proofs.TcpNetCompose Proofs.TcpNetInv Proofs.TcpNetProofs.
 
 (* (ii) of the derivation: everything the network holds - hence everything it can ever deliver -
    was emitted by the other socket.  By construction of the model, in every reachable state. *)
@@ -29,7 +32,7 @@ Print Assumptions C01_channel_subset_of_emitted.
    is a prefix of what A's application wrote, and symmetrically - under the age hypothesis
    [run_age] (every delivered segment is within 2^31 of the receiver's RCV.NXT / the sender's
    SND.UNA: RFC 9293's MSL assumption, stated on model states only, see Proofs/TcpNetCompose.v). *)
-Theorem C01_e2e_prefix_partial : c05_contract -> forall ca cb st0 evs st,
+Theorem C01_e2e_prefix_partial : c05_ka_bound -> forall ca cb st0 evs st,
   cfg_ok ca -> cfg_ok cb -> net_init ca cb = Ok st0 ->
   net_run st0 evs = Ok st -> run_age st0 evs ->
   prefix (ep_read (n_b st)) (ep_written (n_a st)) /\ prefix (ep_read (n_a st)) (ep_written (n_b st)).
@@ -37,7 +40,7 @@ Proof. exact e2e_prefix_c. Qed.
 Print Assumptions C01_e2e_prefix_partial.
 
 (* recv reports Finished only after every octet the peer wrote before closing has been handed over *)
-Theorem C01_e2e_finished_complete_partial : c05_contract -> forall ca cb st0 evs st,
+Theorem C01_e2e_finished_complete_partial : c05_ka_bound -> forall ca cb st0 evs st,
   cfg_ok ca -> cfg_ok cb -> net_init ca cb = Ok st0 ->
   net_run st0 evs = Ok st -> run_age st0 evs ->
   (ep_finished (n_b st) = true -> ep_read (n_b st) = ep_written (n_a st)) /\
@@ -46,7 +49,7 @@ Proof. exact e2e_finished_complete_c. Qed.
 Print Assumptions C01_e2e_finished_complete_partial.
 
 (* the age hypothesis is implied when fewer than 2^31 - 1 octets are written in each direction *)
-Theorem C01_seg_age_implied_below_2GiB_partial : c05_contract -> forall ca cb st0 evs st,
+Theorem C01_seg_age_implied_below_2GiB_partial : c05_ka_bound -> forall ca cb st0 evs st,
   cfg_ok ca -> cfg_ok cb -> net_init ca cb = Ok st0 -> net_run st0 evs = Ok st ->
   l_len (ep_written (n_a st)) < 2147483647 /\ l_len (ep_written (n_b st)) < 2147483647 ->
   run_age st0 evs.
@@ -55,7 +58,7 @@ Print Assumptions C01_seg_age_implied_below_2GiB_partial.
 
 (* ... so below 2 GiB per direction the property holds against EVERY adversary schedule, every
    pair of ISNs (including ones that wrap 2^31 / 2^32 during the transfer), every configuration *)
-Theorem C01_e2e_below_2GiB_partial : c05_contract -> forall ca cb st0 evs st,
+Theorem C01_e2e_below_2GiB_partial : c05_ka_bound -> forall ca cb st0 evs st,
   cfg_ok ca -> cfg_ok cb -> net_init ca cb = Ok st0 -> net_run st0 evs = Ok st ->
   l_len (ep_written (n_a st)) < 2147483647 /\ l_len (ep_written (n_b st)) < 2147483647 ->
   (prefix (ep_read (n_b st)) (ep_written (n_a st)) /\ prefix (ep_read (n_a st)) (ep_written (n_b st))) /\
